@@ -27,6 +27,7 @@ Definition num_stage2 (is0 : bool) (tmp0 r2 : string) (p2 : nat) : option N * st
     | String c3 r2' =>
       if (byte_of c3 =? 98)%N then (Some 2%N, str_pop tmp0, r2', S p2)
       else if (byte_of c3 =? 120)%N then (Some 16%N, str_pop tmp0, r2', S p2)
+      else if (byte_of c3 =? 111)%N then (Some 8%N, str_pop tmp0, r2', S p2)
       else (None, tmp0, r2, p2)
     | "" => (None, tmp0, r2, p2)
     end
@@ -120,6 +121,8 @@ Proof.
   destruct (byte_of c3 =? 98)%N.
   { injection H as <- <- <- <-. split; [|discriminate]. eapply advx_cons; [apply advx_refl|reflexivity]. }
   destruct (byte_of c3 =? 120)%N.
+  { injection H as <- <- <- <-. split; [|discriminate]. eapply advx_cons; [apply advx_refl|reflexivity]. }
+  destruct (byte_of c3 =? 111)%N.
   { injection H as <- <- <- <-. split; [|discriminate]. eapply advx_cons; [apply advx_refl|reflexivity]. }
   injection H as <- <- <- <-. split; [apply advx_refl|discriminate].
 Qed.
